@@ -246,7 +246,7 @@ structure RInstC.Ok (i : RInstC) : Prop where
   g4 : gapOk i.g4 = true
   dne : i.ds ≠ []
   dd : i.ds.all isDigit = true
-  dlen : i.ds.length ≤ instanceIdDigits
+  dlen : idLen i.ds ≤ instanceIdDigits
   dpos : 0 < digitsVal i.ds
   dmax : digitsVal i.ds ≤ instanceIdMax
   kwc : i.kw.all isKwChar = true
@@ -320,7 +320,7 @@ theorem seekEnd_body0_gap (ts : List Tok) (hall : ∀ t ∈ ts, t.ok = true) (hs
 theorem readInstanceNumber_gap (ws0 : Bytes) (lead : Option (Bytes × Bytes)) (ws1 ds : Bytes) (g2 : Gap) (ws2 : Bytes)
     (h0 : ws0.all isSpace = true) (hl : ∀ b wl, lead = some (b, wl) → b.all cmtCharOk = true ∧ wl.all isSpace = true)
     (h1 : ws1.all isSpace = true) (hg : gapOk g2 = true)
-    (h2 : ws2.all isSpace = true) (dne : ds ≠ []) (dd : ds.all isDigit = true) (dlen : ds.length ≤ instanceIdDigits)
+    (h2 : ws2.all isSpace = true) (dne : ds ≠ []) (dd : ds.all isDigit = true) (dlen : idLen ds ≤ instanceIdDigits)
     (dpos : 0 < digitsVal ds) (dmax : digitsVal ds ≤ instanceIdMax) (u : Bytes) (f : Nat)
     (hf : (ws0 ++ leadRender lead ('#' :: (ws1 ++ (ds ++ gapRender g2 ws2 ('=' :: u))))).length + 2 ≤ f) :
     readInstanceNumber f (ws0 ++ leadRender lead ('#' :: (ws1 ++ (ds ++ gapRender g2 ws2 ('=' :: u))))) =
@@ -354,7 +354,7 @@ theorem readInstanceNumber_gap (ws0 : Bytes) (lead : Option (Bytes × Bytes)) (w
     cases lead with
     | none => simp [leadRender] at hf ⊢; omega
     | some p => obtain ⟨b, wl⟩ := p; simp [leadRender] at hf ⊢; omega)
-  have hl1 : ¬ (d0 :: dt).length > instanceIdDigits := by omega
+  have hl1 : ¬ idLen (d0 :: dt) > instanceIdDigits := by omega
   have hz : ((d0 :: dt).length == 0) = false := by simp
   have hv : (digitsVal (d0 :: dt) == 0) = false := by simp; omega
   -- up to `#`
